@@ -467,19 +467,15 @@ class Eval:
                 return False
         return True
 
-    def check_grid(self, X, Y, rows, cols, what, key, u=U64, squeeze=False):
-        """X, Y nested lists of the sliced 2-D result; rows/cols the selected indices."""
+    def check_grid(self, X, Y, rows, cols, what, key, u=U64):
+        """X, Y: the driver's records of the sliced 2-D result; rows/cols: the selected indices."""
         o = self.o
-        shape = np.asarray(X["data"], dtype=float).shape
         want = (len(rows), len(cols))
-        Xa = np.asarray(X["data"], dtype=float).reshape(-1)
-        Ya = np.asarray(Y["data"], dtype=float).reshape(-1)
         if tuple(X["shape"]) != want or tuple(Y["shape"]) != want:
             self.fail(key + ".shape", "%s returns shape %s, expected %s" % (what, X["shape"], list(want)))
             return None
-        del shape
-        Xa = Xa.reshape(want)
-        Ya = Ya.reshape(want)
+        Xa = np.asarray(X["data"], dtype=float).reshape(want)
+        Ya = np.asarray(Y["data"], dtype=float).reshape(want)
         for i, r in enumerate(rows):
             for j, c in enumerate(cols):
                 x, y = float(Xa[i, j]), float(Ya[i, j])
